@@ -57,20 +57,23 @@ type Violation struct {
 
 // Result is what a property run reports to ./check.
 type Result struct {
-	Property      string            `json:"property"`
-	Seed          int64             `json:"seed"`
-	Tier          string            `json:"tier"`
-	Evaluations   int               `json:"evaluations"`
-	Distinct      int               `json:"distinct_nontrivial"`
-	Rule          string            `json:"rule"`
-	Samples       []string          `json:"samples"`
-	Classes       map[string]int    `json:"classes"`
-	ImplKinds     map[string]int    `json:"impl_result_kinds"`
-	Disagreements []Disagreement    `json:"disagreements"`
-	TieBroken     int               `json:"tie_broken"`
-	Violations    []Violation       `json:"violations"`
-	KnownHits     map[string]int    `json:"known_findings_replayed"`
-	Extra         map[string]any    `json:"extra,omitempty"`
+	Property    string         `json:"property"`
+	Seed        int64          `json:"seed"`
+	Tier        string         `json:"tier"`
+	Evaluations int            `json:"evaluations"`
+	Distinct    int            `json:"distinct_nontrivial"`
+	Rule        string         `json:"rule"`
+	Samples     []string       `json:"samples"`
+	Classes     map[string]int `json:"classes"`
+	// ClassMaxBytes: per class, the longest hex argument (in bytes) of any evaluated line - shows at a glance
+	// which generator families never reach frame-sized inputs (input distribution, evidence)
+	ClassMaxBytes map[string]int `json:"class_max_input_bytes"`
+	ImplKinds     map[string]int `json:"impl_result_kinds"`
+	Disagreements []Disagreement `json:"disagreements"`
+	TieBroken     int            `json:"tie_broken"`
+	Violations    []Violation    `json:"violations"`
+	KnownHits     map[string]int `json:"known_findings_replayed"`
+	Extra         map[string]any `json:"extra,omitempty"`
 	// Dropped counts generated lines that were NOT evaluated (could not be dispatched to the code
 	// under test, outside an operation's domain, skipped after the hang budget), per class and reason.
 	Dropped  map[string]int `json:"dropped"`
@@ -81,15 +84,15 @@ type Result struct {
 var Out io.Writer = os.Stdout
 
 type Ctx struct {
-	Prop   string
-	Seed   int64
-	Tier   string // quick | thorough
-	Rnd    *rand.Rand
-	Model  string // path of pktmodel
-	Corpus string // corpus dir for this property
-	Res    *Result
-	batch  []Case
-	Known  map[string]bool // ids of known findings for this property (from KNOWN_FINDINGS.txt)
+	Prop    string
+	Seed    int64
+	Tier    string // quick | thorough
+	Rnd     *rand.Rand
+	Model   string // path of pktmodel
+	Corpus  string // corpus dir for this property
+	Res     *Result
+	batch   []Case
+	Known   map[string]bool // ids of known findings for this property (from KNOWN_FINDINGS.txt)
 	Verbose bool
 	// Why is set by an Eval that returns nil to say why the line was not evaluated (read and reset by Drop).
 	Why string
@@ -98,7 +101,7 @@ type Ctx struct {
 func NewCtx(prop string, seed int64, tier, model, corpus string) *Ctx {
 	return &Ctx{Prop: prop, Seed: seed, Tier: tier, Rnd: rand.New(rand.NewSource(seed)), Model: model, Corpus: corpus,
 		Known: map[string]bool{},
-		Res: &Result{Property: prop, Seed: seed, Tier: tier, Classes: map[string]int{}, ImplKinds: map[string]int{},
+		Res: &Result{Property: prop, Seed: seed, Tier: tier, Classes: map[string]int{}, ClassMaxBytes: map[string]int{}, ImplKinds: map[string]int{},
 			KnownHits: map[string]int{}, Extra: map[string]any{}, Dropped: map[string]int{}, distinct: map[string]struct{}{},
 			Samples: []string{}, Disagreements: []Disagreement{}, Violations: []Violation{}}}
 }
@@ -159,6 +162,22 @@ func (c *Ctx) Add(cs Case) {
 	}
 }
 
+// maxHexBytes: length in bytes of the longest token of the line that consists of hex digits only
+func maxHexBytes(line string) int {
+	best, run := 0, 0
+	for i := 0; i <= len(line); i++ {
+		if i < len(line) && (line[i] >= '0' && line[i] <= '9' || line[i] >= 'a' && line[i] <= 'f') {
+			run++
+			continue
+		}
+		if run > best {
+			best = run
+		}
+		run = 0
+	}
+	return best / 2
+}
+
 func kindOf(s string) string {
 	f := strings.Fields(s)
 	if len(f) == 0 {
@@ -183,6 +202,9 @@ func (c *Ctx) Flush() {
 		r := c.Res
 		r.Evaluations++
 		r.Classes[cs.Class]++
+		if n := maxHexBytes(cs.Line); n > r.ClassMaxBytes[cs.Class] {
+			r.ClassMaxBytes[cs.Class] = n
+		}
 		r.ImplKinds[kindOf(cs.Impl)]++
 		if !cs.Trivial {
 			r.distinct[cs.Line] = struct{}{}
